@@ -1,15 +1,26 @@
 #!/bin/bash
-# Runs every seeded change against the quick (or given) tier of the check of the property it breaks.
-tier=${1:-quick}
+# Runs every seeded change against the quick (or given) tier of the check(s) that should catch it
+# (meta.json "check_ids", default: the property it breaks).
+# Default: scratch worktree + REPO_ROOT (leaves /repo untouched). With INPLACE=1: git -C /repo apply; check; git -C /repo checkout -- .
+tier=${1:-quick}; shift
+only="$@"
 for d in /verif/seeded/*/; do
   n=$(basename $d); [ -f $d/meta.json ] || continue
-  prop=$(python3 -c "import json;print(json.load(open('$d/meta.json'))['property'])")
-  cd /repo; git diff --quiet || { echo "/repo dirty"; exit 2; }
-  if ! git apply --3way $d/patch.diff >/dev/null 2>&1; then echo "$n $prop PATCH-DOES-NOT-APPLY"; git checkout -- . ; git reset -q; continue; fi
-  git reset -q
-  out=$(cd /verif && timeout 3000 bin/symgo check $prop --tier $tier 2>&1); code=$?
-  nviol=$(echo "$out" | grep -c "^VIOLATION")
-  echo "$n $prop exit=$code violations=$nviol $(echo "$out" | grep -m1 'assertion=' | sed 's/.*assertion=//' | cut -c1-120)"
-  cd /repo && git checkout -- . 
+  [ -n "$only" ] && ! echo " $only " | grep -q " $n " && continue
+  ids=$(python3 -c "import json;m=json.load(open('$d/meta.json'));print(' '.join(m.get('check_ids',[m['property']])))")
+  if [ -n "$INPLACE" ]; then
+    root=/repo; cd /repo; git diff --quiet || { echo "/repo dirty"; exit 2; }
+  else
+    root=/tmp/wt/s_$n; git -C /repo worktree remove --force $root 2>/dev/null; git -C /repo worktree add -q --detach $root HEAD || exit 2; cd $root
+  fi
+  if ! git apply --3way $d/patch.diff >/dev/null 2>&1; then echo "$n PATCH-DOES-NOT-APPLY"; else
+    git reset -q
+    for prop in $ids; do
+      out=$(cd /verif && REPO_ROOT=$root timeout 3000 bin/symgo check $prop --tier $tier 2>&1); code=$?
+      nviol=$(echo "$out" | grep -c "^VIOLATION")
+      echo "$n $prop exit=$code violations=$nviol $(echo "$out" | grep -m1 'assertion=' | sed 's/.*assertion=//' | cut -c1-120)"
+    done
+  fi
+  if [ -n "$INPLACE" ]; then cd /repo && git checkout -- . && git reset -q; else cd /; git -C /repo worktree remove --force $root; fi
 done
 cd /verif && git checkout -- evidence replays 2>/dev/null
